@@ -248,12 +248,16 @@ class Ctx:
         if "INCOMPLETE" in r["out"]:
             raise ToolError("trace spec %s did not consume the whole trace (%s)" % (module, stage))
         mism = []
+        notes = {}
         lines = None
         for line in r["out"].splitlines():
             line = line.strip()
             if line.startswith('"MISMATCH '):
                 s = json.loads(line)
                 mism.append(json.loads(s[len("MISMATCH "):]))
+            elif line.startswith('"NOTE '):
+                tag = json.loads(line)[len("NOTE "):]
+                notes[tag] = notes.get(tag, 0) + 1
         for m in mism:
             got = m.get("got")
             ev = got.get("ev", "?") if isinstance(got, dict) else "?"
@@ -276,7 +280,7 @@ class Ctx:
         self.states += r.get("distinct", 0)
         self.transitions += r.get("generated", 0)
         self.stages.append({"stage": stage, "kind": "I->S (recorded trace validated by TLC)", "module": module, "events": nlines,
-                            "runs": runs, "mismatches": len(mism), "wall_s": r["wall_s"]})
+                            "runs": runs, "mismatches": len(mism), "notes": notes, "wall_s": r["wall_s"]})
         self.log("%s: %d events validated, %d mismatches, %.1fs" % (stage, nlines, len(mism), r["wall_s"]))
         return mism
 
